@@ -76,14 +76,47 @@ def opcode_matches(read_code):
     return p1, p2, inner_wide(p1), inner_wide(p2)
 
 
-def eval_arm(match_node, value, extra_override=None):
+def helper_inline(duke, module="duke::class_reader::"):
+    """{key: body} of the free helper functions of the reader module (not the reader primitives the rules count), so that an arm body moved
+    into a private helper evaluates to the same abstract result as the inline code."""
+    out = {}
+    for b in duke.bodies:
+        if not b["key"].startswith(module) or "{closure" in b["key"] or b.get("impl_ty"):
+            continue
+        nm = b.get("name") or b["key"].rsplit("::", 1)[-1]
+        if nm in READ_WIDTH or nm in ("align_to_4_byte_boundary", "read_code", "read", "read_field", "read_method"):
+            continue
+        out[b["key"]] = b
+    return out
+
+
+def eval_arm(match_node, value, extra_override=None, inline=None):
     """Evaluate an integer match for one scrutinee value -> (result value, evaluator)."""
     ov = {id(match_node): ("i", value)}
     if extra_override:
         ov.update(extra_override)
-    ev = T.Evaluator(scrut_override=ov)
+    ev = T.Evaluator(scrut_override=ov, inline=inline or {}, max_inline=2)
     try:
         res = ev.match(match_node, {})
+    except T.Return as r:
+        res = r.v
+    except T.Break:
+        res = ("sym", "<break>")
+    return res, ev
+
+
+def eval_around(root, match_node, value, inline=None):
+    """Like eval_arm, but evaluates the innermost block around the match (the match itself if there is none), so that a tail shared by
+    all arms (hoisted out of the match) is part of the evaluated path."""
+    chain = H.parents_of(root, match_node) or []
+    container = match_node
+    for p in reversed(chain):
+        if p.get("k") == "block":
+            container = p
+            break
+    ev = T.Evaluator(scrut_override={id(match_node): ("i", value)}, inline=inline or {}, max_inline=2)
+    try:
+        res = ev.ev(container, {})
     except T.Return as r:
         res = r.v
     except T.Break:
